@@ -148,8 +148,8 @@ type session struct {
 	seg    *vgirpc.ShmSegment // the client's own segment (nil in a plain session)
 	peer   *vgirpc.ShmSegment // second attachment, used only to read the table
 	nreq   int
-	hold   string         // now | call | session: when received pointers are freed
-	held   []uint64       // pointers received and not yet freed
+	hold   string         // now | call | session | pick: when received pointers are freed
+	held   []heldPtr      // pointers received and not yet freed, oldest first
 	owner  map[uint64]int // offset -> index+1 of the client's region there, or heldByClient
 }
 
@@ -529,8 +529,83 @@ func (s *session) tryPlace(rec arrow.RecordBatch, res *callResult) (uint64, int,
 	return off, ln, true
 }
 
+// heldPtr is a pointer the client keeps: where it points and the result it was given for
+// (first as decoded at receipt, then -- once the same call has been made without shared
+// memory -- the batch the plain session returned at the same position).
+type heldPtr struct {
+	off    uint64
+	length int
+	ncall  int // the session's call counter when it was received
+	idx    int // position among the decoded batches of that call
+	ref    batchRec
+}
+
+// redeem reads the result through a pointer the client holds, the way it did at receipt,
+// and says whether it is still the result the pointer was given for.
+func (s *session) redeem(h heldPtr) (ok bool, why string) {
+	defer func() {
+		if r := recover(); r != nil {
+			ok, why = false, fmt.Sprintf("reading through the pointer at %d panicked: %v", h.off, r)
+		}
+	}()
+	if h.length <= 0 || h.off < vgirpc.ShmHeaderSize || h.off+uint64(h.length) > uint64(s.seg.Size()) {
+		return false, fmt.Sprintf("pointer at %d (%d bytes) is outside the segment", h.off, h.length)
+	}
+	rdr, err := ipc.NewReader(bytes.NewReader(s.seg.VerifRegionBytes(h.off, h.length)), ipc.WithAllocator(mem))
+	if err != nil {
+		return false, fmt.Sprintf("pointer at %d no longer resolves: %v", h.off, err)
+	}
+	defer rdr.Release()
+	if !rdr.Next() {
+		return false, fmt.Sprintf("pointer at %d resolves to no batch: %v", h.off, rdr.Err())
+	}
+	got := dataRec(rdr.RecordBatch())
+	if got.kind != h.ref.kind || got.schema != h.ref.schema || !bytes.Equal(got.payload, h.ref.payload) {
+		return false, fmt.Sprintf("pointer at %d now resolves to {%s %dB}, it was given for {%s %dB}",
+			h.off, got.kind, len(got.payload), h.ref.kind, len(h.ref.payload))
+	}
+	return true, ""
+}
+
+// intact redeems every pointer the client holds.
+func (s *session) intact() (bool, string) {
+	all, note := true, ""
+	for _, h := range s.held {
+		if ok, why := s.redeem(h); !ok {
+			all = false
+			note += why + "; "
+		}
+	}
+	return all, note
+}
+
+// releaseOne redeems the k-th (0-based) pointer the client holds and releases its region.
+func (s *session) releaseOne(k int) (intact, freed bool, note string) {
+	h := s.held[k]
+	s.lockstep()
+	intact, note = s.redeem(h)
+	if note != "" {
+		note += "; "
+	}
+	freed = true
+	if err := s.seg.FreeOffset(h.off); err != nil {
+		freed = false
+		note += "free held pointer: " + err.Error() + "; "
+	}
+	s.held = append(s.held[:k:k], s.held[k+1:]...)
+	still := false
+	for _, o := range s.held {
+		still = still || o.off == h.off
+	}
+	if !still {
+		delete(s.owner, h.off)
+	}
+	return intact, freed, note
+}
+
 // gotPointer books a pointer the client received and releases it according to the policy.
-func (s *session) gotPointer(off uint64, res *callResult) {
+func (s *session) gotPointer(br batchRec, res *callResult) {
+	off := br.off
 	if prev := s.owner[off]; prev > 0 {
 		res.regions[prev-1].freed = true // the server can only have allocated here after freeing it
 	}
@@ -543,21 +618,26 @@ func (s *session) gotPointer(off uint64, res *callResult) {
 		delete(s.owner, off)
 		return
 	}
-	s.held = append(s.held, off)
+	s.held = append(s.held, heldPtr{off: off, length: br.length, ncall: s.nreq, idx: len(res.batches) - 1, ref: br})
 }
 
-// releaseHeld frees every pointer the client still holds.
-func (s *session) releaseHeld() string {
-	note := ""
+// releaseHeld redeems and frees every pointer the client still holds, oldest first.
+func (s *session) releaseHeld() (note string, intact, freed bool) {
+	intact, freed = true, true
+	if s.seg == nil {
+		return
+	}
 	s.lockstep()
-	for _, off := range s.held {
-		if err := s.seg.FreeOffset(off); err != nil {
+	intact, note = s.intact()
+	for _, h := range s.held {
+		if err := s.seg.FreeOffset(h.off); err != nil {
+			freed = false
 			note += "free held pointer: " + err.Error() + "; "
 		}
-		delete(s.owner, off)
+		delete(s.owner, h.off)
 	}
 	s.held = nil
-	return note
+	return
 }
 
 // sendRequest writes the request stream; the request batch goes through the segment
@@ -596,7 +676,7 @@ func (s *session) recv(res *callResult) (more bool) {
 			ev.rec.Release()
 			res.batches = append(res.batches, br)
 			if br.via == "shm" && br.kind != "ptr" {
-				s.gotPointer(br.off, res)
+				s.gotPointer(br, res)
 			}
 			if br.kind == "log" {
 				continue
